@@ -556,6 +556,21 @@ impl<'src> Walker<'src>
                 continue;
             }
 
+            // So are string literals: their characters
+            // are not tokens of the instruction
+            if c == '"'
+            {
+                let (kind, length) = syntax::decide_next_token(
+                    &self.src[byte_index..self.cursor_limit]);
+
+                if kind == syntax::TokenKind::String
+                {
+                    byte_index += length;
+                    seen_tokens = true;
+                    continue;
+                }
+            }
+
             if c.eq_ignore_ascii_case(&wanted_char) &&
                 seen_tokens &&
                 paren_nesting == 0 &&
